@@ -148,7 +148,10 @@ def timeouts(cfg):
     several response waiting times, the target outlasts any recovery"""
     rwt = 4096 / 13.56E6 * 2 ** cfg["rwt"]
     t_i = 6 * rwt + 1.0
-    return {"rwt": rwt, "i": t_i, "t": 4 * t_i + 1.0, "listen": 4 * rwt + 3.0}
+    # one Target.exchange() spans all chained frames of a response and of the
+    # next request; each of them may cost one rwt of recovery
+    return {"rwt": rwt, "i": t_i, "t": 150 * rwt + 4 * t_i + 10.0,
+            "listen": 4 * rwt + 3.0}
 
 
 def converse(cfg, reqs, ress, script, step_budget=20000):
